@@ -706,8 +706,36 @@ func (l *PartitionLog) computeSegmentRange(seg segmentRange, entries []*IndexEnt
 		if maxEnd < end {
 			end = maxEnd
 		}
+		// The index is sparse: when the entry found is below the requested
+		// offset, the batch holding that offset starts somewhere between this
+		// entry and the next one. In that case never cap the range before the
+		// next entry (or the end of the body), otherwise the response can
+		// consist only of batches below the requested offset and the consumer
+		// re-sends the same fetch forever.
+		if offset > entry.Offset {
+			minEnd := endLimit - 1
+			if next := nextIndexEntry(entries, entry); next != nil && int64(next.Position)-1 < minEnd {
+				minEnd = int64(next.Position) - 1
+			}
+			if end < minEnd {
+				end = minEnd
+			}
+		}
 	}
 	return start, end
+}
+
+// nextIndexEntry returns the entry following the given one, or nil.
+func nextIndexEntry(entries []*IndexEntry, entry *IndexEntry) *IndexEntry {
+	for i, e := range entries {
+		if e == entry || (e.Offset == entry.Offset && e.Position == entry.Position) {
+			if i+1 < len(entries) {
+				return entries[i+1]
+			}
+			return nil
+		}
+	}
+	return nil
 }
 
 func findIndexEntry(entries []*IndexEntry, offset int64) *IndexEntry {
